@@ -55,6 +55,9 @@ pub trait HProblem: Problem<Objective = SingleObjective> + ObjectiveFunction + K
     fn reference(&self, solution: &Self::Encoding) -> f64;
     fn key(solution: &Self::Encoding) -> Vec<u64>;
     fn instr(&self) -> &Instr;
+    /// A different instance of the same size and domain (what an earlier run on the same state
+    /// may have been about).
+    fn sibling(&self) -> Self;
     fn show(solution: &Self::Encoding) -> String;
     /// real-valued encodings expose their coordinates (swarm monitors)
     fn as_real(_solution: &Self::Encoding) -> Option<&[f64]> {
@@ -178,6 +181,17 @@ impl HProblem for RealP {
         };
         if v.is_nan() { f64::INFINITY } else { v }
     }
+    fn sibling(&self) -> Self {
+        let mut spec = self.spec.clone();
+        spec.kind = match spec.kind {
+            RealKind::Sphere => RealKind::Shifted,
+            RealKind::Shifted => RealKind::Ripple,
+            RealKind::Ripple => RealKind::Steps,
+            RealKind::Steps => RealKind::SignedSteps,
+            RealKind::SignedSteps => RealKind::Sphere,
+        };
+        RealP::new(spec)
+    }
     fn key(x: &Vec<f64>) -> Vec<u64> {
         x.iter().map(|v| v.to_bits()).collect()
     }
@@ -210,6 +224,9 @@ pub struct BinSpec {
     pub dim: usize,
     pub penalty: Option<u64>,
     pub name: String,
+    /// zero-max instead of one-max
+    #[serde(default)]
+    pub flip: bool,
 }
 
 pub struct BinP {
@@ -254,7 +271,10 @@ impl HProblem for BinP {
             return f64::INFINITY;
         }
         // one-max as a minimisation problem, with a weight on the leading bit
-        x.iter().enumerate().map(|(i, b)| if *b { 0.0 } else if i == 0 { 2.0 } else { 1.0 }).sum()
+        x.iter().enumerate().map(|(i, b)| if *b != self.spec.flip { 0.0 } else if i == 0 { 2.0 } else { 1.0 }).sum()
+    }
+    fn sibling(&self) -> Self {
+        BinP::new(BinSpec { flip: !self.spec.flip, ..self.spec.clone() })
     }
     fn key(x: &Vec<bool>) -> Vec<u64> {
         x.iter().map(|b| *b as u64).collect()
@@ -349,6 +369,18 @@ impl HProblem for TspP {
         }
         len
     }
+    fn sibling(&self) -> Self {
+        // the same map on another scale, every road travelled in the opposite direction: every
+        // tour has another length
+        let n = self.spec.dim;
+        let mut dist = vec![0.0; n * n];
+        for a in 0..n {
+            for b in 0..n {
+                dist[a * n + b] = 1.5 * self.spec.dist[b * n + a];
+            }
+        }
+        TspP::new(TspSpec { dist, ..self.spec.clone() })
+    }
     fn key(x: &Vec<usize>) -> Vec<u64> {
         x.iter().map(|v| *v as u64).collect()
     }
@@ -392,7 +424,7 @@ pub fn gen_real(g: &mut Gen, penalty: bool, max_dim: usize) -> RealSpec {
 }
 
 pub fn gen_bin(g: &mut Gen, penalty: bool) -> BinSpec {
-    BinSpec { dim: 1 + g.below(10), penalty: if penalty { Some(g.u64()) } else { None }, name: format!("bin{}", g.below(1000)) }
+    BinSpec { dim: 1 + g.below(10), penalty: if penalty { Some(g.u64()) } else { None }, name: format!("bin{}", g.below(1000)), flip: false }
 }
 
 pub fn gen_tsp(g: &mut Gen, penalty: bool, min_dim: usize, max_dim: usize, extreme: bool) -> TspSpec {
